@@ -275,7 +275,11 @@ def build_call(EoN, name, variant):
             setattr(mod, name, f)
         if 'a' in rec:
             b = sig.bind(*rec['a'], **rec['k'])
-            return f, dict(b.arguments)
+            args = dict(b.arguments)
+            if variant.get('arrays') and 'Ks' in sig.parameters:
+                import numpy as np
+                args['Ks'] = np.array(range(len(args['Sk0'])), dtype=float)    # an explicit float degree array incl. degree 0
+            return f, args
     return None
 
 
